@@ -43,13 +43,20 @@ class _Ctx:
     stmts: list[Stmt]
     is_ctx_expr: bool
     in_while_cond: bool = False
+    lazy: str | None = None
+    """set where an expression is not evaluated exactly once, right where
+    the enclosing statement is: names the construct that decides"""
+
+    def within(self, lazy: str):
+        """This context, inside a construct that evaluates conditionally or repeatedly."""
+        return _Ctx(self.stmts, self.is_ctx_expr, self.in_while_cond, lazy)
 
     @staticmethod
     def default():
         return _Ctx(stmts=[], is_ctx_expr=False)
 
 
-def _refuses(e: Call, *, in_while_cond: bool) -> str | None:
+def _refuses(e: Call, *, in_while_cond: bool, lazy: str | None = None) -> str | None:
     """Why the call *e* cannot be inlined, or `None` where it can.
 
     Decided from the call and the callee alone, so a listing and the rewrite
@@ -60,6 +67,11 @@ def _refuses(e: Call, *, in_while_cond: bool) -> str | None:
         return (
             f'inlining `{e.fn.name}` here would splice its body before the '
             f'loop, where a `while` condition is evaluated every iteration'
+        )
+    if lazy is not None:
+        return (
+            f'inlining `{e.fn.name}` here would splice its body ahead of the '
+            f'statement, where {lazy} evaluates it only when (and as often as) needed'
         )
     # inlining rewrites the trailing return into an assignment to a temp (see
     # `_replace_ret`): none leaves nothing to rewrite, and several would emit
@@ -124,7 +136,7 @@ class _FuncInline(SiteRewriter):
             return super()._visit_call(e, ctx)
 
         # a refusal is not a site, so it takes no index
-        reason = _refuses(e, in_while_cond=ctx.in_while_cond)
+        reason = _refuses(e, in_while_cond=ctx.in_while_cond, lazy=ctx.lazy)
         if reason is not None:
             self.refused.append((e, reason))
             if self._named_by_cursor(e):
@@ -205,6 +217,36 @@ class _FuncInline(SiteRewriter):
         # return the bound value
         return Var(t, e.loc)
 
+
+    def _visit_if_expr(self, e: IfExpr, ctx: _Ctx):
+        # only one arm is evaluated
+        cond = self._visit_expr(e.cond, ctx)
+        ift = self._visit_expr(e.ift, ctx.within('an `if` expression'))
+        iff = self._visit_expr(e.iff, ctx.within('an `if` expression'))
+        return IfExpr(cond, ift, iff, e.loc)
+
+    def _visit_naryop(self, e: NaryOp, ctx: _Ctx):
+        if isinstance(e, And | Or):
+            # short-circuit: only the first operand is always evaluated
+            lazy = ctx.within('a short-circuiting `and` / `or`')
+            args = [self._visit_expr(arg, ctx if i == 0 else lazy) for i, arg in enumerate(e.args)]
+            return type(e)(args, e.loc)
+        return super()._visit_naryop(e, ctx)
+
+    def _visit_compare(self, e: Compare, ctx: _Ctx):
+        # a chain stops at its first false link
+        lazy = ctx.within('a comparison chain')
+        args = [self._visit_expr(arg, ctx if i < 2 else lazy) for i, arg in enumerate(e.args)]
+        return Compare(e.ops, args, e.loc)
+
+    def _visit_list_comp(self, e: ListComp, ctx: _Ctx):
+        # all but the first iterable are evaluated per element, under the
+        # comprehension's own bindings
+        lazy = ctx.within('a comprehension')
+        targets = [self._visit_binding(target, ctx) for target in e.targets]
+        iterables = [self._visit_expr(it, ctx if i == 0 else lazy) for i, it in enumerate(e.iterables)]
+        elt = self._visit_expr(e.elt, lazy)
+        return ListComp(targets, iterables, elt, e.loc)
 
     def _visit_while(self, stmt: WhileStmt, ctx: _Ctx):
         cond = self._visit_expr(stmt.cond, _Ctx(ctx.stmts, False, in_while_cond=True))
